@@ -293,10 +293,14 @@ func newConsistentHashSelector(servers map[string]string) Selector {
 	ss := make([]string, 0, len(servers))
 	for k := range servers {
 		ss = append(ss, k)
-		h.Add(k)
 	}
 
 	sort.Slice(ss, func(i, j int) bool { return ss[i] < ss[j] })
+	// add in sorted order: the slot of a server must not depend on the map iteration order,
+	// otherwise two clients built from the same set disagree on the mapping
+	for _, k := range ss {
+		h.Add(k)
+	}
 	return &consistentHashSelector{servers: ss, h: h}
 }
 
@@ -314,11 +318,13 @@ func (s *consistentHashSelector) Select(ctx context.Context, servicePath, servic
 func (s *consistentHashSelector) UpdateServer(servers map[string]string) {
 	ss := make([]string, 0, len(servers))
 	for k := range servers {
-		s.h.Add(k)
 		ss = append(ss, k)
 	}
 
 	sort.Slice(ss, func(i, j int) bool { return ss[i] < ss[j] })
+	for _, k := range ss {
+		s.h.Add(k)
+	}
 
 	for _, k := range s.servers {
 		if _, exist := servers[k]; !exist { // remove
